@@ -66,6 +66,48 @@ theorem view_length : (s.view c).ents.length = s.numRetained := by
 
 end
 
+/-! ### monotonicity of the rank numerator -/
+
+theorem countP_mono_pred {p q : α → Bool} (hpq : ∀ e, p e = true → q e = true) (l : List α) : l.countP p ≤ l.countP q := by
+  induction l with
+  | nil => simp
+  | cons x t ih =>
+    simp only [List.countP_cons]
+    by_cases hp : p x = true
+    · simp only [hp, hpq x hp, if_true]; omega
+    · simp only [hp, Bool.false_eq_true, if_false]
+      by_cases hq : q x = true <;> simp [hq] <;> omega
+
+theorem wLevels_mono {p q : α → Bool} (hpq : ∀ e, p e = true → q e = true) (W : Nat) (lv : List (List α)) :
+    wLevels p W lv ≤ wLevels q W lv := by
+  induction lv generalizing W with
+  | nil => simp [wLevels]
+  | cons l r ih =>
+    simp only [wLevels]
+    exact Nat.add_le_add (Nat.mul_le_mul_left _ (countP_mono_pred hpq l)) (ih (2 * W))
+
+theorem wSketch_mono {p q : α → Bool} (hpq : ∀ e, p e = true → q e = true) (s : Sketch α) : wSketch p s ≤ wSketch q s :=
+  Nat.add_le_add (countP_mono_pred hpq s.bb) (wLevels_mono hpq 2 s.levels)
+
+theorem belowP_mono {lt : α → α → Bool} (hlt : SWO lt) {x y : α} (hxy : lt y x = false) (incl : Bool) (e : α)
+    (h : belowP lt x incl e = true) : belowP lt y incl e = true := by
+  cases incl with
+  | true =>
+    simp only [belowP, if_true, Bool.not_eq_true'] at h ⊢
+    exact hlt.ntrans y x e hxy h
+  | false =>
+    simp only [belowP, Bool.false_eq_true, if_false] at h ⊢
+    cases hey : lt e y with
+    | true => rfl
+    | false => have := hlt.ntrans e y x hey hxy; rw [h] at this; exact absurd this (by simp)
+
+theorem belowP_excl_incl {lt : α → α → Bool} (hlt : SWO lt) (x e : α) (h : belowP lt x false e = true) :
+    belowP lt x true e = true := by
+  simp only [belowP, Bool.false_eq_true, if_false, if_true, Bool.not_eq_true'] at h ⊢
+  cases hxe : lt x e with
+  | false => rfl
+  | true => have := hlt.trans e x e h hxe; rw [hlt.irrefl] at this; exact absurd this (by simp)
+
 /-! ### retained count -/
 
 theorem retained_formula {c : Cmp α} {S : List α → Prop} {s : Sketch α} (h : Inv c S s) :
